@@ -36,5 +36,5 @@ MANIFEST = {
              "single-threaded; the Notify waiter lists are not visible to the hook snapshot (only blocked_readers, "
              "blocked_writers, stopped, the driver waker and ref_count are); that quinn-proto emits an event for every "
              "condition change is C02's obligation (the model's driver events carry their state change); 0-RTT rejection "
-             "paths and Endpoint::rebind are not modelled; layer C is sampling (160 traces quick, 4000 thorough)."),
+             "paths (exercised by asyncsim, parameter 44, incl. stream-id reuse) and Endpoint::rebind are not modelled; layer C is sampling (160 traces quick, 4000 thorough)."),
 }
